@@ -6,6 +6,7 @@ CONSTANTS
   FIX_REKEY = TRUE
   FIX_MOVED = FALSE
   FIX_RMALL = TRUE
+  FIX_PATHKEY = TRUE
   FIX_ENOENT = FALSE
 INVARIANTS TrueNames NoSpuriousError RemoveWorks Covered OwnTreeOnly
 CHECK_DEADLOCK FALSE
